@@ -944,6 +944,11 @@ func (e *Eval) instr(fr *frame, in ssa.Instruction, st State) {
 		} else {
 			e.event("P4", Discharged, x, "map update on %v", m)
 		}
+		if _, isC := m.(CMapV); !isC {
+			if _, isG := m.(MapV); !isG {
+				e.clobber(fr, st, "assignment into a map that is not resolved", okMap)
+			}
+		}
 		if cm, ok := m.(CMapV); ok {
 			if mc, ok := st[cm.O].(MapC); ok && mc.Top != "" {
 				e.setContent(fr, st, cm.O, mc) // still a mutation (loop summarisation tracks it)
@@ -1097,6 +1102,18 @@ func (e *Eval) escape(fr *frame, st State, v AV, why string) {
 	case TupleV:
 		for _, y := range x {
 			e.escape(fr, st, y, why)
+		}
+	}
+}
+
+// clobber: a write through a pointer or slice the analysis cannot resolve may hit any
+// tracked object of that kind; all of them become unknown.
+func (e *Eval) clobber(fr *frame, st State, why string, kinds ...ObjKind) {
+	for o := range st {
+		for _, k := range kinds {
+			if o.Kind == k {
+				e.setContent(fr, st, o, topContent(o, why))
+			}
 		}
 	}
 }
@@ -2102,6 +2119,7 @@ func (e *Eval) store(fr *frame, x *ssa.Store, st State) {
 	p, ok := addr.(PtrV)
 	if !ok {
 		e.escape(fr, st, v, "store through unknown pointer")
+		e.clobber(fr, st, "store through a pointer that is not resolved", okCell, okVec, okBuf, okArr)
 		return
 	}
 	switch {
@@ -2275,6 +2293,8 @@ func (e *Eval) storeElem(fr *frame, x *ssa.Store, el *ElemRef, v AV, st State) {
 		}
 	case *ListV:
 		e.event("E1", Violated, x, "store into word list %s", b.Name())
+	default:
+		e.clobber(fr, st, "element store through a slice or pointer that is not resolved", okCell, okVec, okBuf, okArr)
 	}
 }
 
